@@ -20,7 +20,8 @@ import BpProofs.OkSound
       `copy_steps` (lemmas in BpProofs/CopyBytes.lean; `initCur_eq_cur` there shows that a
       constructor call re-derives exactly the stored selection under the oneof invariant);
     * pickle = parse ∘ bytes: `pickle_is_wire_roundtrip` (faithfulness is then C01).
-  Not expressible in a pure functional model: independence (aliasing) of copies.
+  Not expressible in this value-tree model: independence (aliasing) of copies — that half is proved over the
+  HEAP model (BpModel/Heap.lean) in Props/C14Heap.lean (`deepcopy_disjoint`, `deepcopy_independent`, …).
 -/
 namespace Bp.C14
 open Bp Gen
